@@ -7,3 +7,5 @@ open MtailVerif.C07
 #print axioms register_kept
 #print axioms datum_updates_carry_register
 #print axioms stamp_is_register
+#print axioms MtailVerif.C07.datum_skeletons
+#print axioms MtailVerif.C07.exec_skeletons
